@@ -1,5 +1,6 @@
 SPECIFICATION Spec
 CONSTANTS
+  Quick = TRUE
   MaxSeg = 2
   MaxDepth = 2
   Mut = "none"
